@@ -90,6 +90,39 @@ def np_where(self, e, st, spec):
 Engine.MODELS.append(np_where)
 
 
+def np_stats(self, e, st, spec):
+    """np.mean(list of reals) = ghost prefix sum / length;  np.std = ghost function of (values, length) with std >= 0;
+    np.ceil(x) = the least integer >= x (as a real);  .astype(np.int32) of it = that integer"""
+    name = ast.unparse(e.func)
+    if name in ("np.mean", "np.std") and len(e.args) == 1 and not e.keywords:
+        v = self.ev(e.args[0], st, spec)
+        if isinstance(v, Arr) and v.rank == 1:
+            data, n = v.data, v.dims[0]
+        elif isinstance(v, V.SList) and is_num(v.elems.template):
+            data, n = v.elems.cs[0], v.length
+        else:
+            return NotImplemented
+        if data.sort().range() == I:
+            k = V.fresh("k", I)
+            data = z3.Lambda([k], z3.ToReal(data[k]))
+        self.used_models.add(TRUSTED_NP)
+        if name == "np.mean":
+            return self.psum_fun("f64", st)(data, n) / z3.ToReal(n)
+        f = z3.Function("npstd", AR, I, R)
+        st.assume(f(data, n) >= 0)
+        return f(data, n)
+    if name == "np.ceil" and len(e.args) == 1:
+        x = to_real(self.ev(e.args[0], st, spec))
+        c = V.fresh("ceil", I)
+        st.assume(z3.ToReal(c) >= x, z3.ToReal(c) - 1 < x)
+        self.used_models.add(TRUSTED_NP)
+        return z3.ToReal(c)
+    return NotImplemented
+
+
+Engine.MODELS.append(np_stats)
+
+
 def fancy_index(self, base, ids, st, spec, e):
     if not (isinstance(ids, Arr) and ids.rank == 1 and V.is_int_dtype(ids.dtype)):
         raise EngineError("fancy indexing with a non-integer index array")
